@@ -150,6 +150,18 @@ fn main() {
       }
       h::util::write_json(&args[3], &json!({"guided": guided, "random": nrand, "steps": steps, "with_issues": outs.len(), "outcomes": outs.into_iter().take(100).collect::<Vec<_>>()}));
     }
+    "sock" => {
+      // vh sock <scenarios.jsonl> <out.jsonl>
+      h::sock::run_file(&args[2], &args[3]);
+    }
+    "sockscript" => {
+      // vh sockscript <behaviours.jsonl> <out.json> [--uring] [--limit N]
+      let uring = args.iter().any(|a| a == "--uring");
+      let both = args.iter().any(|a| a == "--both");
+      let limit: usize = args.iter().position(|a| a == "--limit").and_then(|i| args.get(i + 1)).and_then(|s| s.parse().ok()).unwrap_or(40);
+      let backends = if both { vec![false, true] } else { vec![uring] };
+      h::sockscript::run_file(&args[2], &args[3], backends, limit);
+    }
     other => h::util::tool_error(&format!("unknown subcommand {}", other)),
   }
 }
